@@ -214,8 +214,16 @@ def run(check):
       r_lo.ok('%s: %s only appended to' % (lname, lst), lf.loc(loop))
     in_loop = [m for m in muts if any(x is m for x in ast.walk(loop))]
     after = [m for m in muts if m not in in_loop and getattr(m, 'lineno', 0) > loop.end_lineno]
-    default_after = [m for m in after if isinstance(m, ast.Call) and m.args and dotted(m.args[0]) == default_name]
-    default_elsewhere = [m for m in muts if isinstance(m, ast.Call) and m.args and dotted(m.args[0]) == default_name
+    def is_default(e):
+      if dotted(e) == default_name:
+        return True
+      if isinstance(e, ast.Name):
+        srcs = [st.value for st in walk_no_nested(lf.node, include_self=False) if isinstance(st, ast.Assign) and
+                any(isinstance(t, ast.Name) and t.id == e.id for t in st.targets)]
+        return bool(srcs) and all(dotted(x) == default_name for x in srcs)
+      return False
+    default_after = [m for m in after if isinstance(m, ast.Call) and m.args and is_default(m.args[0])]
+    default_elsewhere = [m for m in muts if isinstance(m, ast.Call) and m.args and is_default(m.args[0])
                          and m not in default_after]
     if default_after and not default_elsewhere and in_loop:
       r_lo.ok('%s: pattern sections appended in the loop, %s appended after it' % (lname, default_name), lf.loc(default_after[0]))
@@ -358,8 +366,12 @@ def run(check):
     ok = False
     why = 'read() does not assign self.%s' % attr
     for a in assigns:
-      if isinstance(a.value, ast.Name):
-        loc = a.value.id
+      av = a.value
+      while isinstance(av, ast.Call) and isinstance(av.func, ast.Name) and av.func.id in ('list', 'tuple') and len(av.args) == 1 and \
+          not av.keywords and isinstance(av.args[0], ast.Name):
+        av = av.args[0]           # a copy of the list collected above
+      if isinstance(av, ast.Name):
+        loc = av.id
         nodes = grd.nodes_of(a)
         rds = reaching_defs(grd, loc, nodes[0]) if nodes else []
         fresh = [d for d in rds if d is not grd.entry and isinstance(value_assigned(d, loc), (ast.List,)) and
